@@ -95,6 +95,8 @@ fn check_matop(case: &MatCase, ctx: &mut Ctx) -> Result<(), Fail> {
             }
             _ => {
                 compare(&tag, got, &exp)?;
+                // the dense matrix is a backend too: the same model decides it
+                compare(&format!("dense/{}", op.name()), &dense, &exp)?;
                 // where the contract leaves the outcome open, the backends must at least agree with each other
                 if matches!(exp, Expect::Unspecified) {
                     ensure!(outcome_class(&dense) == outcome_class(got), format!("{}/outcome-differs-from-dense", tag), "dense: {:?}, {}: {:?}", dense, name, got);
@@ -139,8 +141,7 @@ fn check_vecop(case: &VecCase, ctx: &mut Ctx) -> Result<(), Fail> {
     ctx.nontrivial(a.len() >= 2);
     let exp = vmodel(op, a, b, f64::EPSILON);
     ctx.label_if(matches!(exp, Expect::Panic), "must-reject");
-    let _dense = vexec::<f64, DenseB>(op, a, b)?;
-    for (name, got) in [("ndarray", vexec::<f64, NdB>(op, a, b)?), ("nalgebra", vexec::<f64, NaB>(op, a, b)?)] {
+    for (name, got) in [("dense-vec", vexec::<f64, DenseB>(op, a, b)?), ("ndarray", vexec::<f64, NdB>(op, a, b)?), ("nalgebra", vexec::<f64, NaB>(op, a, b)?)] {
         compare(&format!("{}/{}", name, op.name()), &got, &exp)?;
     }
     // variance / std through the vector trait
